@@ -15,7 +15,7 @@ import itertools
 
 from desper.events import EventDispatcher, event_handler
 
-from harness.hb_util import order_hashes
+from harness.hb_util import order_hashes, steer, HarnessBug
 
 PROPERTY = 'C03'
 
@@ -107,13 +107,41 @@ class Env:
                   for ev in ('e1', 'e2')]
         hv = order_hashes(events, n, self.order)
         self.flavours = list(flavours) if flavours is not None else [0] * n
-        self.hs = [FLAVOURED[i][self.flavours[i]](self, i, hv[i]) for i in range(n)]
         self.n = n
+        self.probing, self.probe_log = False, []
+        self.hs, tries = steer(
+            lambda: [FLAVOURED[i][self.flavours[i]](self, i, hv[i]) for i in range(n)], self.probe)
+        self.steered = tries > 0
+        # first candidates fit: the dispatcher hashes weak references like their referents and the constants rule the
+        # order exactly (any deviation is a harness bug).  Otherwise the order was found by trial on addresses: a
+        # residual hash collision can still reorder a later listener set; that is recorded, not fatal (the engine
+        # replays every counterexample anyway).
+        self.strict = tries == 1
         self.reg = set()
         self.frames = []
         self.nested_plan = None     # (actor, action) for the callbacks of nested dispatches
         self.tainted = False        # an active dispatch (callbacks with side effects) has run
         self.serial = 0
+
+    def probe(self, cands):
+        """are these objects served in the requested order?  (scratch dispatchers, every registration order, so
+        that a hash collision inside the listener set shows up as a changed order)"""
+        self.probing = True
+        try:
+            for ins in itertools.permutations(range(self.n)):
+                scratch = EventDispatcher()
+                for i in ins:
+                    scratch.add_handler(cands[i])
+                for ev in ('e1', 'e2'):
+                    del self.probe_log[:]
+                    scratch.dispatch(ev)
+                    if self.probe_log != [i for i in self.order if ev in MAP[CLASSES[i]]]:
+                        return False
+            return True
+        except Exception:       # noqa  a broken dispatcher: go on unsteered, the real run will show it
+            return False
+        finally:
+            self.probing = False
 
     # ---- registration (program side + model)
     def add(self, j, where):
@@ -167,6 +195,9 @@ class Env:
 
     def hit(self, h, method, args, kwargs):
         sp = self.sp
+        if self.probing:
+            self.probe_log.append(h.idx)
+            return
         if not self.frames:
             sp.fail('spurious-call', 'h%d.%s called while no dispatch is running' % (h.idx, method))
         fr = self.frames[-1]
@@ -228,10 +259,12 @@ class Env:
                          'kwargs', '%s received keyword arguments %r' % (what, sorted(kwargs)))
         if len({c[0] for c in fr.calls}) >= 2:
             sp.cover('two-listeners')
-            if not fr.touched:
+            if not fr.touched and self.steered:
                 seen = [c[0] for c in fr.calls]
-                if seen != [i for i in self.order if i in seen]:
-                    raise RuntimeError('listener order %r observed, %r requested: hash control failed'
+                if seen != [i for i in self.order if i in seen] and not self.strict:
+                    sp.cover('listener-order-deviated')
+                elif seen != [i for i in self.order if i in seen]:
+                    raise HarnessBug('listener order %r observed, %r requested: hash control failed'
                                        % (seen, self.order))
                 if self.order != tuple(range(self.n)):
                     sp.cover('non-default-listener-order')
@@ -296,6 +329,121 @@ def h_history(sp, n=3, build=False, steps=3, menu=('none', 'rm self', 'rm next',
             args, kwargs = env.make_args(shape, 'd%d' % step)
             env.do_dispatch(event, args, kwargs, actions, '')
         env.check_membership('after step %d' % step)
+    if not env.steered:
+        raise HarnessBug('the listener order %r could not be established although the path shows no violation' % (order,))
+    sp.done()
+
+
+# ------------------------------------------------------------------------------------------ twins
+class TwinBase:
+    """Handlers that are distinct objects but == to each other and hash-equal (what a frozen / eq dataclass
+    component with equal field values is).  Everything the harness does with them goes by identity (idx)."""
+
+    def __init__(self, rec, idx):
+        self.rec, self.idx = rec, idx
+
+    def __eq__(self, other):
+        return isinstance(other, TwinBase)
+
+    def __hash__(self):
+        return 7
+
+
+@event_handler('e1', e2='on_two')
+class Twin(TwinBase):
+    def e1(self, *args, **kwargs):
+        self.rec.append((self.idx, 'e1', args, kwargs))
+
+    def on_two(self, *args, **kwargs):
+        self.rec.append((self.idx, 'on_two', args, kwargs))
+
+    def e2(self, *args, **kwargs):          # not mapped
+        self.rec.append((self.idx, 'e2', args, kwargs))
+
+
+TWIN_MAP = {'e1': 'e1', 'e2': 'on_two'}
+
+
+def h_twins(sp, n=2, build=False, steps=3, shapes=(0, 5), pre=(0, 1, 2, 3, 4)):
+    """n equal-and-hash-equal handlers; plain callbacks only, so nothing depends on the listener order.
+    Expectations are per *instance*: every registered instance is called exactly once per dispatch,
+    is_handler answers per instance, remove_handler affects that instance only."""
+    d = EventDispatcher()
+    rec = []
+    hs = [Twin(rec, i) for i in range(n)]
+    reg = set()
+
+    def add(i):
+        if reg and i not in reg:
+            sp.cover('twin-added-next-to-registered-twin')
+        d.add_handler(hs[i])
+        reg.add(i)
+        sp.note('add_handler(t%d)' % i)
+
+    def remove(i):
+        if i in reg and len(reg) > 1:
+            sp.cover('twin-removed-next-to-registered-twin')
+        elif i not in reg and reg:
+            sp.cover('unregistered-twin-removed')
+        d.remove_handler(hs[i])
+        reg.discard(i)
+        sp.note('remove_handler(t%d)' % i)
+
+    def membership(when):
+        for i in range(n):
+            got = d.is_handler(hs[i])
+            sp.check(got is (i in reg), 'is_handler', '%s: is_handler(t%d) is %r, registered instances: %r '
+                     '(t0..t%d are equal and hash-equal, but distinct objects)' % (when, i, got, sorted(reg), n - 1))
+
+    if build:
+        for i in range(n):
+            hist = PRE[sp.pick(list(pre), 'history[t%d]' % i)]
+            if hist != 'never':
+                add(i)
+            if hist == 'added twice':
+                add(i)
+            if hist.startswith('added, removed'):
+                remove(i)
+            if hist == 'added, removed, added':
+                add(i)
+        membership('after build')
+    for step in range(steps):
+        op = sp.choose(2 * n + len(EVENTS), 'op%d' % step)
+        if op < n:
+            add(op)
+        elif op < 2 * n:
+            remove(op - n)
+        else:
+            event = EVENTS[op - 2 * n]
+            npos, nkw = SHAPES[sp.pick(list(shapes), 'shape%d' % step)]
+            args = tuple([sp.int('d%d.payload' % step), object()][:npos])
+            kwargs = {'key': object()} if nkw else {}
+            del rec[:]
+            sp.note('dispatch(%r, %d positional, %d keyword)  registered: %r' % (event, npos, nkw, sorted(reg)))
+            try:
+                d.dispatch(event, *args, **kwargs)
+            except Exception as ex:     # noqa
+                sp.fail('dispatch-raises', 'dispatch(%r) raised %r' % (event, ex))
+            mapped = TWIN_MAP.get(event)
+            for i in range(n):
+                mine = [c for c in rec if c[0] == i]
+                if i in reg and mapped is not None:
+                    sp.check(len(mine) >= 1, 'missed', 'dispatch(%r): the registered instance t%d was not called '
+                             '(calls went to %r)' % (event, i, [c[0] for c in rec]))
+                    sp.check(len(mine) == 1, 'duplicate', 'dispatch(%r): t%d was called %d times'
+                             % (event, i, len(mine)))
+                    if len(reg) > 1:
+                        sp.cover('two-twins-served')
+                else:
+                    sp.check(not mine, 'spurious-call', 'dispatch(%r): t%d is not a registered listener but was '
+                             'called' % (event, i))
+                for (_, method, a, kw) in mine:
+                    sp.check(method == mapped, 'wrong-method', 'dispatch(%r): t%d.%s called' % (event, i, method))
+                    sp.check(len(a) == len(args) and all(x is y for x, y in zip(a, args)), 'args',
+                             'dispatch(%r): t%d got other positional arguments' % (event, i))
+                    sp.check(sorted(kw) == sorted(kwargs) and all(kw[k] is kwargs[k] for k in kwargs), 'kwargs',
+                             'dispatch(%r): t%d got keyword arguments %r' % (event, i, sorted(kw)))
+        membership('after step %d' % step)
     sp.done()
 
 
@@ -414,12 +562,15 @@ def h_decor(sp, shape='chain3', nnames=2):
 
 HIST_TAGS = ['delivered', 'removed-during-dispatch', 'added-during-dispatch', 'nested-dispatch', 'double-add',
              'removed-before', 'two-listeners', 'nobody-listens', 'remove-unregistered']
+TWIN_TAGS = ['two-twins-served', 'twin-added-next-to-registered-twin', 'twin-removed-next-to-registered-twin',
+             'unregistered-twin-removed']
 HARNESSES = {
     # shape H (from the empty dispatcher) and shape I + >=2 operations
     'history': dict(fn=h_history, nontrivial=HIST_TAGS[1:7] + ['dispatch-after-active-dispatch'],
                     required=HIST_TAGS + ['dispatch-after-active-dispatch']),
     # shape I + one operation
     'state': dict(fn=h_history, nontrivial=HIST_TAGS[1:7], required=HIST_TAGS),
+    'twins': dict(fn=h_twins, nontrivial=TWIN_TAGS, required=TWIN_TAGS),
     'decor': dict(fn=h_decor, nontrivial=['override', 'extend', 'empty-decoration'],
                   required=['override', 'extend', 'empty-decoration', 'several-classes-listen']),
     'decor-mi': dict(fn=h_decor, nontrivial=['multiple-inheritance'],
@@ -436,6 +587,8 @@ TIERS = {
         ('state', dict(n=3, build=True, steps=1, pre=(0, 1, 2, 3), shapes=(0, 5))),
         ('state', dict(n=3, build=True, steps=1, pre=(1,), menu=('none', 'rm next', 'disp'), shapes=(5,),
                        flavours=(0, 1, 2, 3)), {'required': FLAVOUR_TAGS}),
+        ('twins', dict(n=2, build=False, steps=3)),
+        ('twins', dict(n=3, build=True, steps=1, pre=(0, 1, 3), shapes=(5,))),
         ('decor', dict(shape='chain3', nnames=2)),
         ('decor', dict(shape='siblings', nnames=2)),
         ('decor-mi', dict(shape='two-roots', nnames=2)),
@@ -451,6 +604,8 @@ TIERS = {
         ('decor', dict(shape='chain3', nnames=2)),
         ('decor', dict(shape='siblings', nnames=2)),
         ('decor-mi', dict(shape='two-roots', nnames=2)),
+        ('twins', dict(n=3, build=False, steps=4)),
+        ('twins', dict(n=3, build=True, steps=2, shapes=(5,))),
         ('decor-mi', dict(shape='diamond', nnames=2)),
         ('decor', dict(shape='chain3', nnames=3)),
     ],
@@ -473,11 +628,12 @@ BOUNDS = {
              'actions, 3 argument shapes, listener order h0<h1<h2 and its reverse; I: 4 registration histories per '
              'handler + 1 op with 5 nested actions, 2 shapes; nesting depth 2; I (all registered) + 1 op with every handler '
              'instance plain / __bool__ False / __len__ 0 / __eq__ always True (4^3 combinations, 3 actions, 1 shape).  '
+             'twins (equal and hash-equal handlers): 2 twins H(3), 3 twins I + 1 op.  '
              'decor: chain of 3, siblings, two roots '
              'over 2 event names; chain of 2 over 3 names; 4 decoration kinds per (class, name)',
     'thorough': 'history: H(4); I + 1 op under all 6 listener orders; I + 1 op with 7 nested actions and 6 shapes; '
                 'I (3 histories per handler) + 2 ops (2 shapes, 2 listener orders); I (3 histories) + 1 op with the 4^3 '
-                'instance flavours, 5 actions, 2 shapes.  decor: additionally the diamond '
+                'instance flavours, 5 actions, 2 shapes; twins: 3 twins H(4) and I + 2 ops.  decor: additionally the diamond '
                 'over 2 names and the chain of 3 over 3 names',
 }
 ASSUMPTIONS = [
@@ -490,7 +646,11 @@ ASSUMPTIONS = [
     'handlers stay alive during the whole history (weakness is C10); dispatching stays enabled (C04)',
     'handler flavours: instances that are falsy (__bool__ False, __len__ 0) or equal to everything incl. None '
     '(__eq__ always True, with the per-handler hash constant, so two handlers never share a hash) are handlers like '
-    'any other; handlers that are equal AND hash-equal to each other are not exercised',
+    'any other; handlers that are equal AND hash-equal to each other are exercised by the twins harness, with plain '
+    'callbacks and identity-based expectations only (their listener order cannot be steered)',
+    'where the dispatcher hashes its weak references by identity the listener order is established by trial on '
+    'fresh handler objects (hb_util.steer, probe dispatches on scratch dispatchers); a later deviation is counted '
+    '(cover tag listener-order-deviated), not fatal',
     'handler objects define __hash__ as a constant found at run time so that the listener set is iterated in the '
     'order the path asks for (harness/hb_util.py); the order is verified on every dispatch without interference',
     'callbacks with side effects are drawn for the first dispatch that has any; later dispatches of the same history '
